@@ -172,6 +172,7 @@ def tlc(module, cfg, *, files=None, workers=None, timeout=900, simulate=None, de
     if heap:
         cmd.append("-Xmx" + heap)
     cmd.append("-Xss" + (stack or "64m"))
+    cmd.append("-Djava.io.tmpdir=" + d)          # TLC unpacks its standard modules into java.io.tmpdir and never removes them
     if deque:
         cmd.append("-Dtlc2.tool.queue.IStateQueue=StateDeque")
     cmd += ["-cp", TLA_CP, "tlc2.TLC", "-metadir", os.path.join(d, "meta"), "-workers", str(workers or "auto"),
